@@ -151,6 +151,8 @@ def gen_scripts(prop, tier, rng):
                 S.append(gen.valid_history(rng, kind, 20, allow=("ratio", "ramp"), T=32))
     elif prop == "C07":
         for _ in range(n):
+            for kind in gen.ASYNC:
+                S.append(gen.preset_ratio_history(rng, kind, 40))
             for kind in gen.KINDS:
                 S.append(gen.valid_history(rng, kind, 60, allow=("chunk", "via")))
                 S.append(gen.valid_history(rng, kind, 120, small=True, allow=("chunk",), chunk=1))
@@ -177,6 +179,7 @@ def gen_scripts(prop, tier, rng):
     elif prop == "C14":
         for _ in range(2 * n):
             for kind in gen.ASYNC:
+                S.append(gen.preset_ratio_history(rng, kind, 12, T=64))
                 S.append(gen.valid_history(rng, kind, 12, allow=("chunk",), T=64))
                 S.append(gen.valid_history(rng, kind, 10, allow=(), T=32))
             for kind in gen.FFT:
@@ -225,6 +228,12 @@ def noop_twin_scripts(prop, tier, rng):
                         for k in ("short_in", "short_out"):
                             if k in sh:
                                 sh[k] = [rng.randrange(b["ch"]), sh[k][1]]
+                        if b["ch"] > 1 and "mask_len" not in sh and rng.random() < 0.5:
+                            m = [rng.random() < 0.5 for _ in range(b["ch"])]
+                            for k in ("short_in", "short_out"):
+                                if k in sh:
+                                    m[sh[k][0]] = True
+                            bad["mask"] = m
                         if bad["via"] == "alloc":
                             sh.pop("short_out", None)
                             sh.pop("out_ch", None)
